@@ -85,7 +85,7 @@ func refWindowRecvMACs(c *otr3.Conversation) map[[2]uint32][]byte {
 
 // ---- AKE key derivation (spec: "Computing AES keys, MAC keys, and the secure session id") ----
 type refAKEKeys struct {
-	ssid                   []byte
+	ssid                    []byte
 	c, cp, m1, m2, m1p, m2p []byte
 }
 
